@@ -144,3 +144,50 @@ Proof.
   { apply filter_In. split; [exact Hin|]. unfold tied. rewrite Hel, comp_refl. reflexivity. }
   rewrite E in Hf. exact Hf.
 Qed.
+
+(* ------------------------------------------------------------------------------------------- *)
+(* leastConnsSmoothBalance: the pick is one of the candidates; only credits change.             *)
+From Bfe Require Import proofs.SwrrProofs.
+
+Definition pj_b (b : wb) : Z * Z * bool := (wb_id b, wb_w b, b_av (fst b)).
+
+Lemma put_back_pj bs upd : map pj_b (put_back bs upd) = map pj_b bs.
+Proof.
+  unfold put_back. rewrite map_map. apply map_ext. intros [b n]. unfold wb_id. simpl.
+  destruct (find_c (b_id b) upd); [|reflexivity]. unfold pj_b, wb_id, wb_w. simpl.
+  destruct b as [[[i w] c0] a]. reflexivity.
+Qed.
+
+Lemma cands_view_nonempty cands : cands <> [] -> (forall c, In c cands -> wb_elig c = true) ->
+  filter elig (map fst cands) <> [].
+Proof.
+  destruct cands as [|c r]; [congruence|]. intros _ H. simpl.
+  specialize (H c (or_introl eq_refl)). unfold wb_elig in H. rewrite H. discriminate.
+Qed.
+
+Theorem wlc_smooth_some bs p bs' : wlc_smooth bs = Some (p, bs') ->
+  (exists c, minimal_in bs c /\ wb_id c = p) /\ map pj_b bs' = map pj_b bs.
+Proof.
+  unfold wlc_smooth. destruct (least_conns bs) as [cands|] eqn:E; [|discriminate].
+  pose proof (candidates_exact bs cands E) as Hex.
+  assert (Hgen : forall q upd, smooth (map fst cands) = Some (q, upd) -> exists c, minimal_in bs c /\ wb_id c = q).
+  { intros q upd Hs. destruct (smooth_some _ _ _ Hs) as [[b [Hb [He Hid]]] _].
+    apply in_map_iff in Hb. destruct Hb as [c [Ec Hc]]. exists c. split; [apply Hex; exact Hc|]. subst b. exact Hid. }
+  destruct cands as [|c [|c2 r]].
+  - simpl. discriminate.
+  - intros H; inversion H; subst. split; [|reflexivity]. exists c. split; [apply Hex; left; reflexivity|reflexivity].
+  - destruct (smooth (map fst (c :: c2 :: r))) as [[q upd]|] eqn:Es; [|discriminate]. intros H; inversion H; subst.
+    split; [eapply Hgen; exact Es|apply put_back_pj].
+Qed.
+
+Theorem wlc_smooth_none bs : wlc_smooth bs = None <-> filter wb_elig bs = [].
+Proof.
+  rewrite <- least_conns_none. unfold wlc_smooth. destruct (least_conns bs) as [cands|] eqn:E; [|tauto].
+  split; [|discriminate]. intros H. exfalso.
+  pose proof (candidates_nonempty bs cands E) as Hne.
+  assert (Hel : forall c, In c cands -> wb_elig c = true) by (intros c Hc; apply (candidates_exact bs cands E) in Hc; apply Hc).
+  pose proof (cands_view_nonempty cands Hne Hel) as Hv.
+  destruct cands as [|c [|c2 r]]; [congruence|discriminate|].
+  destruct (smooth (map fst (c :: c2 :: r))) as [[q upd]|] eqn:Es; [discriminate|].
+  apply smooth_none in Es. contradiction.
+Qed.
